@@ -147,6 +147,20 @@ def rule_funnel(run):
     run.check(normd, 't2listing.set_index :: negative index normalised by num_fulltimes',
               'negative index is not mapped to index + num_fulltimes', where=si.where())
 
+    def is_norm(n):
+        return isinstance(n, ast.AugAssign) and dotted(n.target) == 'self._index' and isinstance(n.op, ast.Add)
+    # the normalisation sits in an `if`: find the statement order at the top level of set_index
+    top = si.node.body
+    pos_norm = [i for i, st in enumerate(top) if any(is_norm(x) for x in ast.walk(st))]
+    pos_read = [i for i, st in enumerate(top) if is_read(st)]
+    if pos_norm and pos_read:
+        run.check(max(pos_norm) < min(pos_read), 't2listing.set_index :: index normalised before read_tables',
+                  'read_tables() runs while _index may still be negative: next_table_* compare the file position with '
+                  '_fullpos[index + 1] and stop after the first table, so the other tables keep the rows of the previous time',
+                  where=si.where(top[pos_read[0]]))
+    else:
+        run.unknown('t2listing.set_index :: index normalised before read_tables', 'statements not found at the top level', where=si.where())
+
 
 def rule_dep(run):
     run.rule('DEP', 'nothing that set_index reads before writing (incl. the file position) is written by '
